@@ -275,6 +275,10 @@ func checkC04Run(res *CaseResult, sc *scenario, fs *h.ForkSession, mon *frameMon
 		det := []string{sc.desc(), label, "actual:   " + got, "expected: " + want}
 		res.Fail(Key("final-state", labelClass(label)), "final state is not pre-state + effects of exactly the successful frames", det...)
 	}
+	// a failure reported by a join point must make the surrounding frame fail
+	for _, v := range swallowedJPFailures(fs.L) {
+		res.Fail(Key("jp-failure-swallowed", labelClass(label)), "a join point reported a failure but the frame it surrounds ended without error (effects kept, caller saw success)", sc.desc(), label, v)
+	}
 	// caller observes failure
 	roots, unb := buildFrames(fs.L)
 	if unb != "" {
@@ -325,6 +329,42 @@ func checkC04Run(res *CaseResult, sc *scenario, fs *h.ForkSession, mon *frameMon
 	if nfail > 0 {
 		res.Shape(sc.desc(), label, shapeOf(fs.L))
 	}
+}
+
+// swallowedJPFailures lists frames at whose join point the provider or an Aspect reported an
+// error although the frame's Exit/End callback carries none.
+func swallowedJPFailures(l *h.Log) []string {
+	type fr struct {
+		enter  *h.Event
+		failed string
+	}
+	var stack []*fr
+	var out []string
+	for i := range l.Events {
+		e := &l.Events[i]
+		switch e.K {
+		case h.KStart, h.KEnter:
+			stack = append(stack, &fr{enter: e})
+		case h.KProvider:
+			if e.ErrText != "" && len(stack) > 0 {
+				stack[len(stack)-1].failed = fmt.Sprintf("provider error at firing %d (%s): %s", e.Firing, e.Pointcut, e.ErrText)
+			}
+		case h.KAspectExit:
+			if e.ErrVal != nil && len(stack) > 0 {
+				stack[len(stack)-1].failed = fmt.Sprintf("Aspect failed at seq %d (jp %d): %s", e.Seq, e.JP, e.ErrText)
+			}
+		case h.KExit, h.KEnd:
+			if len(stack) == 0 {
+				continue
+			}
+			f := stack[len(stack)-1]
+			stack = stack[:len(stack)-1]
+			if f.failed != "" && e.ErrVal == nil {
+				out = append(out, fmt.Sprintf("frame entered at seq %d (%s) exited at seq %d without error after: %s", f.enter.Seq, f.enter.Short(), e.Seq, f.failed))
+			}
+		}
+	}
+	return out
 }
 
 func labelClass(label string) string {
